@@ -51,20 +51,29 @@ if _U:
     }
     PROPS["C06"] = {
         "level": "proof", "engine": "cbmc", "design_ref": "6.2",
-        "technique": "CBMC function contracts: structural half of the statement (finalize pure, reset == init, derive-key inits agree, zero-length no-ops, flag/counter plumbing, shape invariants, integer helpers); thorough: portable compress == paper spec (kissat)",
+        "technique": "CBMC function contracts: structural half of the statement (finalize pure, reset == init, derive-key inits agree, zero-length no-ops, flag/counter plumbing, shape invariants, integer helpers) + one-level functional contracts with the compression kernels as uninterpreted functions of all their value arguments (units *_fn); thorough: portable compress == paper spec (kissat)",
         "level_text": "deductive for the structural half ONLY: finalize/finalize_seek assign nothing but out[0..out_len); reset "
                       "leaves every field as hasher_init_base(key, flags) does; init_derive_key == init_derive_key_raw(strlen); "
                       "update(_,_,0) assigns nothing; exact postconditions for chunk_state_output / parent_output / make_output "
                       "/ maybe_start_flag; length accounting and the lazy-last-block shape of chunk_state_update; stack-length "
-                      "vs popcount relations of merge/push/update; integer helpers over their whole machine domain",
-        "level_note": _CBMC_NOTE + "; the FUNCTIONAL equality of the C library's output with the specification is NOT "
-                      "decided (no inductive spec functions in CBMC contracts; ARX/UF reasoning measured not to scale past one "
-                      "chunk): it remains an assumption",
+                      "vs popcount relations of merge/push/update; integer helpers over their whole machine domain. "
+                      "FUNCTIONAL plumbing, one call level deep (units *_fn): with each kernel family abstracted by an "
+                      "uninterpreted function of ALL its value arguments, the four dispatch functions (every ISA branch), the two "
+                      "portable kernels' feed-forward over compress_pre, output_chaining_value, output_root_bytes (every requested "
+                      "byte, unbounded out_len / seek), compress_parents_parallel and finalize / finalize_seek (<= 3 stack entries) "
+                      "are proved to pass exactly the right bytes, counter, flags and CV to exactly the right kernel call and to "
+                      "put every result byte where the specification says; update_base passes an aligned subtree (a 2^k-chunk "
+                      "subtree starts at a chunk index divisible by 2^k) to compress_subtree_to_parent_node",
+        "level_note": _CBMC_NOTE + "; the END-TO-END functional equality of the C library's output with the specification is NOT "
+                      "decided (no inductive spec functions in CBMC contracts): the one-level UF contracts do not compose "
+                      "across the subtree recursion, chunk_state_update, compress_chunks_parallel and the CV stack; that the "
+                      "kernels are deterministic functions of their value arguments and that all ISA variants of a family "
+                      "compute the same function is assumed (C05)",
         "units": {"quick": _units("C06", "quick"), "thorough": _units("C06", "thorough") + [s("C06")]},
         "explanation": "what contracts can decide about C06 without relating 7-round ARX outputs: state plumbing and shapes; "
                        "plus (thorough) one complete equivalence: the C portable compression function == the paper's",
-        "uncovered": ["finalize_seek writes S[seek..seek+out_len] of the concatenated input (functional equality with the "
-                      "spec / the Rust crate): not applicable with the installed contract verifiers",
+        "uncovered": ["finalize_seek writes S[seek..seek+out_len] of the concatenated input END TO END (functional equality with "
+                      "the spec / the Rust crate): not decided by contracts; the thorough tier's bounded unit search:C06 explores it",
                       "units *_fn (cbmc/README.md, 'One-level functional contracts'): with the kernels as uninterpreted functions "
                       "of ALL their value arguments, which bytes/counter/flags/CV go into which kernel call and where every result "
                       "byte lands is decided one call level deep for the four dispatch functions (every ISA branch), "
